@@ -332,6 +332,59 @@ mk('C13-periodic-cleanup-does-nothing', 'cache_impl.go',
 			c.clock.ProcessTick()''',
 '''		case <-tick:
 			c.clock.ProcessTick()''')
+
+def mkm(name, path, pairs):
+    """several replacements in one file (each old text must occur exactly once)"""
+    s = open(path).read()
+    for old, new in pairs:
+        if s.count(old) != 1:
+            bad.append((name, old[:40], s.count(old))); return
+        s = s.replace(old, new)
+    open(path, "w").write(s)
+    if subprocess.run("GOFLAGS=-mod=mod GOPROXY=off GOSUMDB=off GOTOOLCHAIN=local go1.26.8 build -tags verif ./... 2>&1", shell=True, stdout=subprocess.PIPE).returncode != 0:
+        bad.append((name, "does not compile"))
+    d = subprocess.run(["git", "diff"], stdout=-1, text=True).stdout
+    open(f"/verif/mutants/{name}.diff", "w").write(d)
+    subprocess.run(["git", "checkout", "-q", "."])
+
+# chain-depth mutants: only visible in bucket chains far longer than uniformly hashed keys ever produce
+mkm('C15-chain-get-bounded-probe', 'internal/hashmap/map.go', [
+('''	bidx := uint64(len(table.buckets)-1) & h1
+	b := &table.buckets[bidx]
+	for {
+		metaw := b.meta.Load()''', '''	bidx := uint64(len(table.buckets)-1) & h1
+	b := &table.buckets[bidx]
+	for depth := 0; ; depth++ {
+		metaw := b.meta.Load()'''),
+('''		b = b.next.Load()
+		if b == nil {
+			return zeroValue[N]()''', '''		b = b.next.Load()
+		if b == nil || depth >= 8 {
+			return zeroValue[N]()'''),
+])
+mkm('C15-chain-copy-stops-deep', 'internal/hashmap/map.go', [
+('''	//nolint:gocritic // nesting is normal here
+	for {
+		for i := 0; i < nodesPerMapBucket; i++ {
+			if b.nodes[i] != nil {
+				n := m.nodeManager.FromPointer(b.nodes[i])''', '''	//nolint:gocritic // nesting is normal here
+	for depth := 0; ; depth++ {
+		for i := 0; i < nodesPerMapBucket; i++ {
+			if b.nodes[i] != nil {
+				n := m.nodeManager.FromPointer(b.nodes[i])'''),
+('''				copied++
+			}
+		}
+		if next := b.next.Load(); next == nil {''', '''				copied++
+			}
+		}
+		if next := b.next.Load(); next == nil || depth >= 12 {'''),
+])
+mk('C15-chain-range-fixed-scratch', 'internal/hashmap/map.go',
+'''				if b.nodes[i] != nil {
+					bnodes = append(bnodes, b.nodes[i])''',
+'''				if b.nodes[i] != nil && len(bnodes) < cap(bnodes) {
+					bnodes = append(bnodes, b.nodes[i])''')
 os.chdir("/")
 shutil.rmtree(D)
 print("not generated:", bad)
